@@ -568,10 +568,10 @@ struct Mixed {
             for (int32 a = 0; a < nattr; a++) {
                 char  an[256] = "";
                 int32 at = 0, ac = 0;
-                if (SDattrinfo(sds, a, an, &at, &ac) != FAIL) {
+                if (!MX("SDattrinfo", SDattrinfo(sds, a, an, &at, &ac) == FAIL) && ac >= 0 && ac < 4096) {
                     ctx.trb(an, strlen(an));
                     std::vector<uint8_t> ab((size_t)ac * (size_t)DFKNTsize(at) + 8);
-                    if (SDreadattr(sds, a, ab.data()) != FAIL)
+                    if (!MX("SDreadattr", SDreadattr(sds, a, ab.data()) == FAIL))
                         ctx.trb(ab.data(), (size_t)ac * (size_t)DFKNTsize(at));
                 }
             }
@@ -663,10 +663,10 @@ struct Mixed {
                 for (int32 a = 0; a < na && a < 4; a++) {
                     char  an[256] = "";
                     int32 at = 0, ac = 0;
-                    if (GRattrinfo(ri, a, an, &at, &ac) != FAIL && ac >= 0 && ac < 4096) {
+                    if (!MX("GRattrinfo", GRattrinfo(ri, a, an, &at, &ac) == FAIL) && ac >= 0 && ac < 4096) {
                         ctx.trb(an, strlen(an));
                         std::vector<uint8_t> ab((size_t)ac * (size_t)DFKNTsize(at) + 8);
-                        if (GRgetattr(ri, a, ab.data()) != FAIL)
+                        if (!MX("GRgetattr", GRgetattr(ri, a, ab.data()) == FAIL))
                             ctx.trb(ab.data(), (size_t)ac * (size_t)DFKNTsize(at));
                     }
                 }
@@ -674,7 +674,7 @@ struct Mixed {
                 if (lut != FAIL && GRgetlutinfo(lut, &lnc, &lnt, &lil, &lne) != FAIL && lne > 0 && lne <= 256 && lnc > 0 && lnc <= 4) {
                     std::vector<uint8_t> pal((size_t)lne * (size_t)lnc * 8 + 8);
                     ctx.tr((uint64_t)lne);
-                    if (GRreadlut(lut, pal.data()) != FAIL)
+                    if (!MX("GRreadlut", GRreadlut(lut, pal.data()) == FAIL))
                         ctx.trb(pal.data(), (size_t)lne * (size_t)lnc * (size_t)DFKNTsize(lnt));
                 }
             }
